@@ -432,7 +432,13 @@ func expandGlob(root, pattern string) ([]string, error) {
 	var matches []string
 	ignoreHiddenGlobFn := func(path string, d fs.DirEntry) error {
 		if strings.HasPrefix(path, ".") {
-			return filepath.SkipDir
+			if d.IsDir() {
+				// Don't descend into hidden directories
+				return filepath.SkipDir
+			}
+			// A hidden file: leave just this entry out. Returning SkipDir for a file
+			// would skip everything else in the directory that contains it
+			return nil
 		}
 
 		abs, err := filepath.Abs(filepath.Join(root, path))
